@@ -149,14 +149,14 @@ func (p *Parser) colNum() int {
 // takes care of updating the line and column numbers if it encounters line
 // breaks.
 func (p *Parser) advanceChar() bool {
+	if p.pos < len(p.input) && p.char == '\n' {
+		p.lineStart = p.nextPos
+		p.lineNum++
+	}
 	if p.nextPos >= len(p.input) {
 		p.char = 0
 		p.pos = p.nextPos
 		return false
-	}
-	if p.char == '\n' {
-		p.lineStart = p.nextPos
-		p.lineNum++
 	}
 	var size int
 	p.char, size = utf8.DecodeRuneInString(p.input[p.nextPos:])
